@@ -1,6 +1,7 @@
 package harness
 
 import (
+	"crypto/sha256"
 	"bytes"
 	"fmt"
 	"io"
@@ -68,6 +69,10 @@ func genStateSnapScript(rng *Rng, nops int) []string {
 	idx := uint64(0)
 	for len(script) < nops+2 {
 		switch r := rng.Intn(100); {
+		case r < 8:
+			script = append(script, "snap.read")
+		case r < 11:
+			script = append(script, "state.read")
 		case r < 30:
 			script = append(script, fmt.Sprintf("state.set %d %s", genU64(rng), hx([]byte(idPool[rng.Intn(len(idPool))]))))
 		case r < 50 && len(open) < 2:
@@ -143,6 +148,7 @@ func TestE2StateSnapCrash(t *testing.T) {
 			}
 		}
 		checkPrograms(rep, "C13", script, muts)
+		checkLiveReads(rep, script, muts, short)
 		cuts := enumerateCuts(muts, EnvInt("VERIF_MAXCUT", 6))
 		for ci, cp := range cuts {
 			im := NewImage()
@@ -152,7 +158,7 @@ func TestE2StateSnapCrash(t *testing.T) {
 			if cp.cut >= 0 {
 				im.Apply(muts[cp.mut], cp.cut)
 			}
-			done, inflight := marksBefore(muts, cp.mut)
+			done, inflight := marksBefore(muts, afterEndMarks(muts, cp))
 			caseLine := fmt.Sprintf("script=%s | cut=after %d syscalls (+%d bytes) | done=%d inflight=%d", short, cp.mut, cp.cut, done, inflight)
 			rep.Case(caseLine, inflight >= 0)
 			// spec: replay completed ops
@@ -312,4 +318,64 @@ func describeShort(im *Image) string {
 		parts = append(parts, d+"/")
 	}
 	return strings.Join(parts, " ")
+}
+
+// checkLiveReads: what the live storages returned for snap.read / state.read (no crash) against
+// the sequential specification: the newest *closed* snapshot, complete; the last value set.
+func checkLiveReads(rep *Report, script []string, muts []Mut, short string) {
+	results := map[int]string{}
+	for _, m := range muts {
+		if m.Kind != "mark" {
+			continue
+		}
+		f := strings.Fields(m.Mark)
+		if len(f) >= 3 && f[0] == "e" && f[2] == "ok" {
+			k, _ := strconv.Atoi(f[1])
+			results[k] = strings.Join(f[3:], " ")
+		}
+	}
+	curT, curV := uint64(0), ""
+	writers := map[string]*snapSpec{}
+	var lastClosed *snapSpec
+	for k, line := range script {
+		f := strings.Fields(line)
+		switch f[0] {
+		case "state.set":
+			curT, _ = strconv.ParseUint(f[1], 10, 64)
+			curV = string(unhx(f[2]))
+		case "snap.new":
+			i, _ := strconv.ParseUint(f[2], 10, 64)
+			tm, _ := strconv.ParseUint(f[3], 10, 64)
+			writers[f[1]] = &snapSpec{index: i, term: tm, cfg: unhx(f[4])}
+		case "snap.write":
+			writers[f[1]].data = append(writers[f[1]].data, unhx(f[2])...)
+		case "snap.close":
+			lastClosed = writers[f[1]]
+		case "snap.discard":
+			delete(writers, f[1])
+		case "snap.read":
+			want := "found=0"
+			if lastClosed != nil {
+				want = fmt.Sprintf("found=1 idx=%d term=%d len=%d sha=%x", lastClosed.index, lastClosed.term, len(lastClosed.data), sha256.Sum256(lastClosed.data))
+			}
+			rep.Hit("live-snap-read")
+			if got, ok := results[k]; ok && got != want {
+				open := 0
+				for _, w := range writers {
+					if !w.closed && w != lastClosed {
+						open++
+					}
+				}
+				rep.Add(Finding{Kind: "oracle", Property: "C13", Oracle: "SnapshotFile() on the live storage does not return the most recently closed snapshot (complete, with its metadata)",
+					Case: fmt.Sprintf("%s | op #%d snap.read", short, k), Impl: got, Detail: "want " + want, Signature: map[string]string{"oracle": "live-snapshot-read"}})
+			}
+		case "state.read":
+			want := fmt.Sprintf("term=%d vote=%s", curT, hx([]byte(curV)))
+			rep.Hit("live-state-read")
+			if got, ok := results[k]; ok && got != want {
+				rep.Add(Finding{Kind: "oracle", Property: "C19", Oracle: "State() on the live storage does not return the last value set", Case: fmt.Sprintf("%s | op #%d state.read", short, k), Impl: got, Detail: "want " + want,
+					Signature: map[string]string{"oracle": "readback-state"}})
+			}
+		}
+	}
 }
